@@ -27,16 +27,20 @@ import (
 	"time"
 
 	corev1 "k8s.io/api/core/v1"
+	apiequality "k8s.io/apimachinery/pkg/api/equality"
 	"k8s.io/apimachinery/pkg/api/resource"
 	metav1 "k8s.io/apimachinery/pkg/apis/meta/v1"
 	"k8s.io/apimachinery/pkg/types"
 	utilruntime "k8s.io/apimachinery/pkg/util/runtime"
+	toolscache "k8s.io/client-go/tools/cache"
 	"k8s.io/kubernetes/pkg/scheduler/framework"
 	"k8s.io/utils/ptr"
 
 	apiext "github.com/koordinator-sh/koordinator/apis/extension"
 	schedulingv1alpha1 "github.com/koordinator-sh/koordinator/apis/scheduling/v1alpha1"
+	schedulinglister "github.com/koordinator-sh/koordinator/pkg/client/listers/scheduling/v1alpha1"
 	"github.com/koordinator-sh/koordinator/pkg/scheduler/frameworkext"
+	reservationutil "github.com/koordinator-sh/koordinator/pkg/util/reservation"
 	vu "github.com/koordinator-sh/koordinator/pkg/verifutil"
 )
 
@@ -269,10 +273,15 @@ type c05World struct {
 	rh    *reservationEventHandler
 	ph    *podEventHandler
 	lastR map[string]*schedulingv1alpha1.Reservation // last object delivered per uid (the informer's "old" object)
+	// the reservation informer's store behind Plugin.rLister: holds what the informer delivered last (an informer
+	// updates its store before it calls the handlers); it survives Fresh(), as the API objects survive a restart
+	rStore toolscache.Indexer
 	// C19 (zz_verif_c19_test.go): the objects the API server holds = what the informers delivered last; they survive a restart
 	apiR map[string]*c05Op
 	apiP map[string]*c05PodObj
 }
+
+var c05ViaPlugin, c05Direct int // rAssume through Plugin.Reserve / by the direct cache call
 
 var c05Panics int32 // panics swallowed in worker goroutines of the plugin (Parallelizer)
 
@@ -297,6 +306,8 @@ func c05NewWorld(t testing.TB) *c05World {
 	// The scheduler cache (NodeInfo holding the reserve pods) is not part of this harness: reserved resources are
 	// restored lazily (feature gate LazyReservationRestore), i.e. in BeforeFilter, which the queries do not need.
 	w.pl.enableLazyReservationRestore = true
+	w.rStore = toolscache.NewIndexer(toolscache.MetaNamespaceKeyFunc, toolscache.Indexers{})
+	w.pl.rLister = schedulinglister.NewReservationLister(w.rStore)
 	w.Fresh()
 	return w
 }
@@ -375,6 +386,7 @@ func c05ApplyOp(w *c05World, o *c05Op) vu.Ev {
 	case "rAdd": // informer add
 		r := c05Reservation(o)
 		w.lastR[o.R] = r
+		_ = w.rStore.Add(r)
 		w.rh.OnAdd(r, false)
 	case "rUpdate": // informer update (also resync: old == new)
 		r := c05Reservation(o)
@@ -383,17 +395,39 @@ func c05ApplyOp(w *c05World, o *c05Op) vu.Ev {
 			old = r
 		}
 		w.lastR[o.R] = r
+		_ = w.rStore.Update(r)
 		w.rh.OnUpdate(old, r)
 	case "rDelete": // informer delete, the plugin's own handler
 		r := c05Reservation(o)
 		delete(w.lastR, o.R)
+		_ = w.rStore.Delete(r)
 		w.rh.OnDelete(r)
 	case "rCacheDelete": // what the scheduler-wide reservation handler calls on terminate / delete / roll-back
 		w.pl.DeleteReservation(c05Reservation(o))
 	case "rAssume": // Reserve of the reserve pod
-		w.cache.assumeReservation(c05Reservation(o))
-	case "rForget": // Unreserve of the reserve pod
-		w.cache.forgetReservation(c05Reservation(o))
+		// through Plugin.Reserve when the informer's object is the one the event describes (the plugin assumes the
+		// lister's object with the chosen node stamped on it); otherwise the cache call Reserve would have made
+		want := c05Reservation(o)
+		if cur, err := w.pl.rLister.Get(o.R); err == nil {
+			got := cur.DeepCopy()
+			got.Status.NodeName = o.Node
+			if apiequality.Semantic.DeepEqual(want, got) {
+				cs := framework.NewCycleState()
+				cs.Write(stateKey, &stateData{})
+				st := w.pl.Reserve(ctx, cs, reservationutil.NewReservePod(cur), o.Node)
+				if !st.IsSuccess() {
+					panic("c05: Reserve of a reserve pod failed: " + st.Message())
+				}
+				c05ViaPlugin++
+				break
+			}
+		}
+		c05Direct++
+		w.cache.assumeReservation(want)
+	case "rForget": // Unreserve of the reserve pod, through Plugin.Unreserve (informer's object, or a stub when it is gone)
+		cs := framework.NewCycleState()
+		cs.Write(stateKey, &stateData{})
+		w.pl.Unreserve(ctx, cs, reservationutil.NewReservePod(c05Reservation(o)), o.Node)
 	case "assume": // Reserve of an owner pod on the nominated reservation
 		err := w.cache.assumePod(types.UID(o.R), c05Pod(&o.c05PodObj, ""))
 		out["ok"] = err == nil
@@ -1263,5 +1297,5 @@ func TestVerifC05(t *testing.T) {
 		run(c05OnceScenario(rng))
 		run(c05NominateFitScenario(rng))
 	}
-	t.Logf("C05: %d segments, %d events", rec.Segments(), rec.Events())
+	t.Logf("C05: %d segments, %d events; rAssume via Plugin.Reserve %d, direct %d", rec.Segments(), rec.Events(), c05ViaPlugin, c05Direct)
 }
